@@ -113,3 +113,30 @@ Theorem scanners_agree : forall (matches : row -> bool) (fs : list sort_field) (
   scan_unique matches p forward rows = scan_sorting matches fs p rows.
 Proof. exact scanners_agree_lemma. Qed.
 Print Assumptions scanners_agree.
+
+(* paging parameters at the numeric extremes: an explicit limit that is at least the number of
+   matching rows - n, 2^62, MaxInt64 - 1, ... with any skip, so also when skip + limit exceeds
+   MaxInt64 - answers exactly like `limit none`, through QueryIds (either scan strategy) and
+   through the paged iteration *)
+Theorem huge_limit_is_unbounded : forall (matches : row -> bool) (fs : list sort_field)
+                                         (sk : option Z) (k : Z) (rows : list row),
+  wf_paging {| pg_skip := sk; pg_limit := Some k |} -> id_sorted rows -> rows_ok rows ->
+  Z.of_nat (length rows) <= max_int64 ->
+  Z.of_nat (length (filter matches rows)) <= k ->
+  query_ids matches fs {| pg_skip := sk; pg_limit := Some k |} rows
+    = query_ids matches fs {| pg_skip := sk; pg_limit := limit_none |} rows /\
+  iterate_ids matches {| pg_skip := sk; pg_limit := Some k |} rows
+    = iterate_ids matches {| pg_skip := sk; pg_limit := limit_none |} rows.
+Proof. exact huge_limit_is_unbounded_lemma. Qed.
+Print Assumptions huge_limit_is_unbounded.
+
+(* a skip that reaches the number of matching rows (n, 2^62, MaxInt64, ...) returns no ids, whatever
+   the limit, and the count is still the number of matching rows *)
+Theorem skip_beyond_count : forall (matches : row -> bool) (fs : list sort_field)
+                                   (p : paging) (rows : list row),
+  wf_paging p -> id_sorted rows -> rows_ok rows -> Z.of_nat (length rows) <= max_int64 ->
+  Z.of_nat (length (filter matches rows)) <= spec_skip p ->
+  query_ids matches fs p rows = ([], Z.of_nat (length (filter matches rows))) /\
+  iterate_ids matches p rows = [].
+Proof. exact skip_beyond_count_lemma. Qed.
+Print Assumptions skip_beyond_count.
